@@ -38,9 +38,12 @@ EXPLANATION = ('Unbounded Coq theorems (every width > 0, every in-range operand)
                'well-formed module and every function of the integer/branch/phi/return fragment (Model.Ir2PyFunc.'
                'compile_func, text-compared with the emitted function for generated CFGs on every run), whenever the '
                'reference semantics Spec.IRSem.run_function returns a value, the emitted `while True` block dispatcher '
-               'returns the same value (unbounded over functions, CFGs, loops, fuel). NOT modelled in Coq (only executed '
-               'against the reference interpreter tools/irsem_py.py / an oracle in the search): calls, memory '
-               'instructions inside functions, alloc/free, float arithmetic, ptr-typed arithmetic, Undefined, '
+               'returns the same value (unbounded over functions, CFGs, loops, fuel); c24_module_simulates extends this to '
+               'whole modules with calls of module functions and of external functions/procedures (oracle parameter, same '
+               'value and same trace of external calls; one fuel for call depth and loop iterations). NOT modelled in Coq (only executed '
+               'against the reference interpreter tools/irsem_py.py / an oracle in the search): memory '
+               'instructions inside functions (Alloc, AddressOf, Load, Store, CopyBlob, globals: the runtime address space differs '
+               'from Spec.IRSem, a memory injection would be needed), alloc/free, module Procedures/Exit, indirect calls, float arithmetic, ptr-typed arithmetic, Undefined, '
                'out-of-range constants. Repaired defects: float->int rounding and phis of the untaken successor (fixed '
                'in /repo; _refuted theorems kept about the old generators). Known findings with proposed repairs: '
                'rol/ror emitted as invalid Python (c24_binop_rol_refuted; repaired lowering proved exact in '
@@ -466,7 +469,11 @@ class Prog:
             b = blks[bn]
             _, body, term = self.blocks[bn]
             for (v, op, x, y) in body:
-                ins = ir.Binop(val(b, x), op, val(b, y), v, ty)
+                if op == 'call':
+                    callee = [g for g in m.functions if g.name == x][0]
+                    ins = ir.FunctionCall(callee, [val(b, a) for a in y], v, ty)
+                else:
+                    ins = ir.Binop(val(b, x), op, val(b, y), v, ty)
                 b.add_instruction(ins)
                 vals[v] = ins
             pending.append((b, term))
@@ -509,7 +516,10 @@ class Prog:
             fuel -= 1
             _, body, term = self.blocks[cur]
             for (v, op, x, y) in body:
-                r = o_binop(op, self.bits, self.signed, get(x), get(y))
+                if op == 'call':
+                    r = self.lib[x].interp([get(a) for a in y], phi_mode=phi_mode)
+                else:
+                    r = o_binop(op, self.bits, self.signed, get(x), get(y))
                 if r is None:
                     return None
                 env[v] = r
@@ -581,6 +591,27 @@ def fixed_programs():
                        'q': ([('v', {'entry': 't', 'p': 'u2'})], [], ('ret', 'v'))},
                       ['entry', 'p', 'q']))
     return progs
+
+
+def call_programs(rng, k):
+    """helpers + a self-loop whose back edge swaps two phis (a, b = b, a) and calls module functions in the loop;
+    a sequential phi assignment (a = b; b = a) changes the result"""
+    c1, c2, c3 = rng.randrange(2, 6), rng.randrange(1, 5), rng.randrange(2, 9)
+    inc = Prog('inc%d' % k, ['x'], {'entry': ([], [('r', '+', 'x', 1)], ('ret', 'r'))}, ['entry'])
+    mix = Prog('mix%d' % k, ['p', 'q'], {'entry': ([], [('t', '*', 'p', c1), ('u', '-', 't', 'q')], ('ret', 'u'))}, ['entry'])
+    loop = Prog('swapcall%d' % k, ['n'],
+                {'entry': ([], [], ('jump', 'hdr')),
+                 'hdr': ([('a', {'entry': c2, 'hdr': 'b'}), ('b', {'entry': c2 + c3, 'hdr': 'a'}),
+                          ('i', {'entry': 0, 'hdr': 'i2'}), ('acc', {'entry': 0, 'hdr': 'acc2'})],
+                         [('t', 'call', 'mix%d' % k, ['a', 'b']), ('acc2', '+', 'acc', 't'),
+                          ('i2', 'call', 'inc%d' % k, ['i'])],
+                         ('cjump', 'i2', '<', 'n', 'hdr', 'ex')),
+                 'ex': ([], [('r', '*', 'acc2', 7), ('r2', '+', 'r', 'a'), ('r3', '-', 'r2', 'b')], ('ret', 'r3'))},
+                ['entry', 'hdr', 'ex'])
+    lib = {p.name: p for p in (inc, mix, loop)}
+    for p in (inc, mix, loop):
+        p.lib = lib
+    return [inc, mix, loop]
 
 
 def random_program(rng, k):
@@ -723,6 +754,58 @@ def in_fragment(fpy):
     return True
 
 
+def in_mfragment(mpy):
+    """mirror of Model.Ir2PyMod.compile_modul <> None on the irimport structure of a module"""
+    name, exts, gvars, funcs = mpy
+    fsig = {f[0]: (f[2], [t for _, t in f[3]]) for f in funcs}
+    esig = {}
+    for e in exts:
+        if e[0] == 'efunc':
+            esig[e[1]] = (e[3], list(e[2]))
+        elif e[0] == 'eproc':
+            esig[e[1]] = (None, list(e[2]))
+    for f in funcs:
+        fname, binding, ret, params, blocks = f
+        dt = {}
+        for b in blocks:
+            for i in b[2]:
+                if i[0] in ('const', 'binop', 'unop', 'cast', 'load', 'phi', 'undefined', 'callf'):
+                    dt[i[1]] = i[3]
+        ptys = [t for _, t in params]
+
+        def rty(r):
+            return dt.get(r[1]) if r[0] == 'loc' else (ptys[r[1]] if r[0] == 'param' else None)
+        stripped = []
+        for b in blocks:
+            ins2 = []
+            for i in b[2]:
+                if i[0] == 'callf':
+                    if i[3] not in INTS or i[4][0] != 'glob':
+                        return False
+                    sig = fsig.get(i[4][1]) or (esig.get(i[4][1]) if i[4][1] not in fsig else None)
+                    if sig is None or sig[0] != i[3] or len(sig[1]) != len(i[5]) or \
+                            any(t not in INTS or rty(a) != t for a, t in zip(i[5], sig[1])):
+                        return False
+                    ins2.append(('const', i[1], i[2], i[3], ('int', 0)))      # stands for a defined int value
+                elif i[0] == 'callp':
+                    if i[1][0] != 'glob' or i[1][1] in fsig:
+                        return False
+                    sig = esig.get(i[1][1])
+                    if sig is None or sig[0] is not None or len(sig[1]) != len(i[2]) or \
+                            any(t not in INTS or rty(a) != t for a, t in zip(i[2], sig[1])):
+                        return False
+                elif i[0] == 'return':
+                    if rty(i[1]) != ret:
+                        return False
+                    ins2.append(i)
+                else:
+                    ins2.append(i)
+            stripped.append((b[0], b[1], ins2))
+        if not in_fragment((fname, binding, ret, params, stripped)):
+            return False
+    return True
+
+
 def function_text(text, fname):
     """the lines ir2py emitted for function fname: from `def` up to the blank line before register_function"""
     lines = text.splitlines()
@@ -747,7 +830,8 @@ def function_corpus(ctx, ir, thorough):
     import irgen
     mods = []
     pm = ir.Module('c24cfg')
-    for pr in fixed_programs() + [random_program(ctx.rng, 100 + k) for k in range(10 if thorough else 4)]:
+    for pr in fixed_programs() + [random_program(ctx.rng, 100 + k) for k in range(10 if thorough else 4)] + \
+            [q for k in range(3 if thorough else 2) for q in call_programs(ctx.rng, k)]:
         pr.build(ir, pm)
     mods.append(pm)
     for k in range(24 if thorough else 8):
@@ -833,10 +917,10 @@ def run(ctx):
     ir, _, _ = _ppci()
     thorough = not ctx.quick()
     infos, rows, rt_text = regen(ctx)
-    ok, _ = ctx.build(['Proofs/C24_ir2py.vo', 'Proofs/C24_func.vo', 'Proofs/C24_rot.vo'])
+    ok, _ = ctx.build(['Proofs/C24_ir2py.vo', 'Proofs/C24_func.vo', 'Proofs/C24_rot.vo', 'Proofs/C24_mod.vo'])
     if ok:
         ctx.check_props('Props/C24.v')
-    model_ok = ctx.build(['Model/Ir2Py.vo', 'Model/Ir2PyFunc.vo', 'Model/Ir2PyRot.vo', 'Lib/Val.vo'])[0]
+    model_ok = ctx.build(['Model/Ir2Py.vo', 'Model/Ir2PyFunc.vo', 'Model/Ir2PyRot.vo', 'Model/Ir2PyMod.vo', 'Lib/Val.vo'])[0]
 
     # ---- emit the one-instruction module once
     m, idx = build_arith_module(ir)
@@ -973,7 +1057,8 @@ def run(ctx):
     n_mem = len(cases) - n_helper - n_text - n_value
 
     # ---- (e) phis: emitted tuple assignments vs the model of the variant this tree emits
-    progs = fixed_programs() + [random_program(ctx.rng, k) for k in range(40 if thorough else 12)]
+    progs = fixed_programs() + [random_program(ctx.rng, k) for k in range(40 if thorough else 12)] + \
+        [q for k in range(2) for q in call_programs(ctx.rng, 50 + k)]
     pm = ir.Module('c24phi')
     for pr in progs:
         pr.build(ir, pm)
@@ -1033,6 +1118,46 @@ def run(ctx):
                 got = run_with_alarm(fns[fobj.name], args)
                 add('run_compiled 400 %s %s' % (term, to_term(list(args))), got, ('run-function', (m.name, fobj.name, args)))
     ctx.cov['stages']['functions_in_fragment'] = n_fun
+
+    # ---- (g) whole modules with calls (module functions, external functions/procedures): text + value + trace
+    import irimport
+    cmods = []
+    cm = ir.Module('c24call')
+    for q in [q for k in range(2) for q in call_programs(ctx.rng, 200 + k)]:
+        q.build(ir, cm)
+    cmods.append(cm)
+    for k in range(10 if thorough else 4):
+        try:
+            cmods.append(irgen.gen_module(ctx.rng, size=2 + k % 2, features=FUNC_FEATURES + ('calls', 'extern'),
+                                          name='h%d' % k))
+        except Exception as ex:   # noqa: BLE001
+            ctx.log('irgen failed:', ex)
+    n_mods = 0
+    for cmod in cmods:
+        try:
+            mpy = irimport.module_to_py(cmod)
+            if not in_mfragment(mpy):
+                continue
+            mtext = emit_module(cmod)
+            mns = load_module(mtext)
+            mterm = irimport.module_to_coq(cmod)
+        except Exception:   # noqa: BLE001
+            continue
+        n_mods += 1
+        for fobj in cmod.functions:
+            flines = function_text(mtext, fobj.name)
+            style = 'FreeMark' if any('_irpy_stack_mark' in l for l in flines) else 'FreeStatic'
+            add('show_mcompiled %s %s "%s"' % (style, mterm, fobj.name), flines, ('text-module', (cmod.name, fobj.name)))
+            args = [ctx.rng.randrange(0, 7) for _ in fobj.arguments] if cmod.name == 'c24call' else \
+                irgen.gen_args(ctx.rng, fobj)
+            trace = []
+            for e in cmod.externals:
+                mns['rt'].externals[e.name] = (lambda nm: (lambda *a: (trace.append((nm, list(a))), 0)[1]))(e.name)
+            got = run_with_alarm(mns[fobj.name], args)
+            val = OkV((got.v, trace)) if isinstance(got, OkV) else got
+            add('run_mcompiled 300 %s "%s" %s' % (mterm, fobj.name, to_term(list(args))), val,
+                ('run-module', (cmod.name, fobj.name, args)))
+    ctx.cov['stages']['modules_with_calls'] = n_mods
     n_func = len(cases) - n_helper - n_text - n_value - n_mem - n_phi
 
     ctx.cov['stages']['correspondence_distribution'] = {
@@ -1044,7 +1169,7 @@ def run(ctx):
     if model_ok:
         import time
         t0 = time.time()
-        bad = run_batched(ctx, 'ir2py', ['Spec.IRSemArith', 'Gen.ir2py_runtime', 'Model.Ir2Py', 'Model.Ir2PyFunc', 'Model.Ir2PyRot', 'Spec.IRSyntax'], cases)
+        bad = run_batched(ctx, 'ir2py', ['Spec.IRSemArith', 'Gen.ir2py_runtime', 'Model.Ir2Py', 'Model.Ir2PyFunc', 'Model.Ir2PyRot', 'Model.Ir2PyMod', 'Spec.IRSyntax'], cases)
         ctx.cov['stages']['correspondence_wall_s'] = round(time.time() - t0, 1)
         if bad:
             for i in bad[:6]:
@@ -1068,7 +1193,8 @@ def search(ctx, shared=None, corpus=None):
     if shared is None:
         m, idx = build_arith_module(ir)
         ns = load_module(emit_module(m))
-        progs = fixed_programs() + [random_program(ctx.rng, k) for k in range(12)]
+        progs = fixed_programs() + [random_program(ctx.rng, k) for k in range(12)] + \
+            [q for k in range(2) for q in call_programs(ctx.rng, 50 + k)]
         pm = ir.Module('c24phi')
         for pr in progs:
             pr.build(ir, pm)
@@ -1249,17 +1375,18 @@ def search(ctx, shared=None, corpus=None):
     pns = load_module(ptext)
     for pr in progs:
         for n in (list(range(0, 9)) + ([17, 40] if thorough else [])):
-            exp = pr.interp([n])
+            pargs = [n + j for j in range(len(pr.params))]
+            exp = pr.interp(pargs)
             if exp is None:
                 continue
             n_eval += 1
-            got = outcome(pns[pr.name], n)
+            got = outcome(pns[pr.name], *pargs)
             if isinstance(got, OkV) and got.v == exp:
                 continue
-            rec = {'fn': 'fill_phis', 'program': pr.name, 'args': [n], 'expected': exp,
+            rec = {'fn': 'fill_phis', 'program': pr.name, 'args': pargs, 'expected': exp,
                    'actual': got.v if isinstance(got, OkV) else 'exception', 'blocks': repr(pr.blocks),
                    'how_to_replay': replay_hint}
-            if pv == 'all' and isinstance(got, OkV) and got.v == pr.interp([n], phi_mode='all'):
+            if pv == 'all' and isinstance(got, OkV) and got.v == pr.interp(pargs, phi_mode='all'):
                 rec['class'] = CLS_PHI
                 rec['key'] = CLS_PHI
             else:
@@ -1289,6 +1416,49 @@ def search(ctx, shared=None, corpus=None):
                                    'function': fobj.name, 'args': list(args), 'expected': ref.v[0],
                                    'actual': got.v if isinstance(got, OkV) else 'exception', 'ir': str(fpy)[:1500]})
     ctx.cov['stages']['functions_vs_reference'] = nfun
+
+    # modules OUTSIDE the proved fragment: memory (alloca, loads/stores at offsets, volatile, globals) together
+    # with calls and externals, executed against the reference interpreter: return value, trace of external
+    # calls and final bytes of every global variable
+    MEMF = ('diamond', 'loop', 'selfloop', 'dupedge', 'casts', 'calls', 'extern', 'alloca', 'volatile', 'globals')
+    nmem = 0
+    for k in range(30 if thorough else 6):
+        try:
+            mm = irgen.gen_module(ctx.rng, size=2 + k % 3, features=MEMF, name='mm%d' % k)
+            mtext = emit_module(mm)
+        except Exception as ex:   # noqa: BLE001
+            ctx.log('irgen/emit failed:', ex)
+            continue
+        for fobj in mm.functions:
+            if not isinstance(fobj, ir.Function):
+                continue
+            for _ in range(3):
+                args = irgen.gen_args(ctx.rng, fobj)
+                ref = irsem_py.run_main(mm, fobj.name, args, fuel=3000)
+                if not isinstance(ref, OkV) or not isinstance(ref.v[0], int):
+                    continue
+                mns = load_module(mtext)
+                trace = []
+                for e in mm.externals:
+                    mns['rt'].externals[e.name] = (lambda nm: (lambda *a: (trace.append((nm, list(a))), 0)[1]))(e.name)
+                got = run_with_alarm(mns[fobj.name], args)
+                n_eval += 1
+                nmem += 1
+                gl = []
+                for gv in mm.variables:
+                    try:
+                        gl.append((gv.name, bytes(mns['rt'].read_mem(mns[gv.name], len(dict(ref.v[1])[gv.name])))))
+                    except Exception:   # noqa: BLE001
+                        gl.append((gv.name, None))
+                if not (isinstance(got, OkV) and got.v == ref.v[0] and trace == [(a, list(b)) for a, b in ref.v[2]]
+                        and gl == [(a, bytes(b)) for a, b in ref.v[1]]):
+                    ctx.violation({'fn': 'generate_function', 'key': 'memory/calls %s.%s' % (mm.name, fobj.name),
+                                   'function': fobj.name, 'args': list(args), 'expected': ref.v[0],
+                                   'actual': got.v if isinstance(got, OkV) else 'exception',
+                                   'trace_equal': trace == [(a, list(b)) for a, b in ref.v[2]],
+                                   'globals_equal': gl == [(a, bytes(b)) for a, b in ref.v[1]],
+                                   'ir': str(mm)[:1500]})
+    ctx.cov['stages']['memory_calls_vs_reference'] = nmem
     ctx.cov['stages']['oracle_sweep'] = ctx.cov['stages'].get('oracle_sweep', 0) + n_eval
     ctx.cov['evaluations'] += n_eval
 
@@ -1341,14 +1511,17 @@ MANIFEST = {
             'well-formed IR module and every function built from integer constants, binops, unops, int casts, phis, '
             'jumps, conditional jumps and return, if the reference IR semantics (Spec.IRSem.run_function) yields a value '
             'then the emitted Python function (the while/if block dispatcher with per-edge phi fills) returns the same '
-            'value - proved for all functions, CFG shapes, loops and iteration counts. Refuted with witnesses: the old '
+            'value - proved for all functions, CFG shapes, loops and iteration counts; (5) c24_module_simulates: the same for '
+            'whole modules whose functions also call each other and external functions/procedures (oracle parameter): same '
+            'value and same sequence of external calls. Refuted with witnesses: the old '
             'int(round(x)) cast, the old all-successor phi fill (both repaired in /repo), rol/ror emitted as invalid '
             'Python (repair proposed, repaired lowering proved exact)',
     'note': 'trusted: Coq kernel; py2coq on the emitted helper text; the hand models of the statement generators and of '
             'the emitted function body (their printed text is compared with the emitted text for every (op, type) and for '
             'generated CFG functions on every run; values compared on boundary pools / generated arguments); the reading '
             'of the IR in Spec.IRSemArith / Spec.IRSem; CPython facts about int, round, int(float), struct on a '
-            'little-endian host. Not modelled in Coq: calls, memory instructions inside functions, alloca/free, float '
+            'little-endian host. Not modelled in Coq: memory instructions inside functions (different address spaces), '
+            'alloca/free, module procedures, indirect calls, float '
             'arithmetic, ptr arithmetic (no wrap; ptr is a 4-byte signed int in memory), Undefined - executed against '
             'the independent reference interpreter only. No axioms.',
     'technique': 'Coq proof (forward simulation of the block dispatcher + per-instruction exactness) over the py2coq-'
